@@ -32,7 +32,12 @@ class List(Expression):
         return not self.min_len or self.min_len == '0'
 
     def can_partially_succeed(self):
-        return not self.always_succeeds() and self.expr.can_partially_succeed()
+        if self.always_succeeds():
+            return False
+        # When two or more elements are required, the list can fail after it has
+        # already consumed some of them.
+        needs_just_one = self.min_len == 1 or self.min_len == '1'
+        return self.expr.can_partially_succeed() or not needs_just_one
 
     def _compile(self, out, flags):
         if self.max_len == 0 or self.max_len == '0':
